@@ -66,6 +66,64 @@ type wshadow struct {
 	fins   string
 }
 
+// watchApplyOpts is the generator's own reading of the history options (only to bias the cases and to state the
+// non-triviality rule; the model's reading is Cosi.Model.HistOpts, the code's is options.go).
+func watchApplyOpts(opts string) (initcap, maxcap, gap int) {
+	initcap, maxcap, gap = 100, 100, 5
+
+	for _, o := range strings.Split(opts, ",") {
+		if len(o) < 2 {
+			continue
+		}
+
+		var n int
+
+		fmt.Sscanf(o[1:], "%d", &n)
+
+		switch o[0] {
+		case 'i':
+			initcap = n
+			maxcap = max(maxcap, n)
+		case 'm':
+			maxcap = n
+			initcap = min(initcap, n)
+		case 'c':
+			initcap, maxcap = n, n
+		case 'g':
+			gap = n
+		}
+	}
+
+	return initcap, maxcap, gap
+}
+
+func watchStateOptions(opts string) []inmem.StateOption {
+	var res []inmem.StateOption
+
+	for _, o := range strings.Split(opts, ",") {
+		if len(o) < 2 {
+			continue
+		}
+
+		var n int
+
+		fmt.Sscanf(o[1:], "%d", &n)
+
+		switch o[0] {
+		case 'i':
+			res = append(res, inmem.WithHistoryInitialCapacity(n))
+		case 'm':
+			res = append(res, inmem.WithHistoryMaxCapacity(n))
+		case 'c':
+			res = append(res, inmem.WithHistoryCapacity(n))
+		case 'g':
+			res = append(res, inmem.WithHistoryGap(n))
+		}
+	}
+
+	return res
+}
+
 func (e *watchEng) Gen(r *Rand, thorough bool, idx int) Case {
 	initcap := 1 + r.Intn(6)
 	maxcap := initcap
@@ -84,11 +142,73 @@ func (e *watchEng) Gen(r *Rand, thorough bool, idx int) Case {
 		n = 120
 	}
 
+	// the options in the order the state is built with; in a quarter of the cases another order, a single
+	// WithHistoryCapacity, or options that cross (initial above the maximum in force, maximum below the initial)
+	opts := fmt.Sprintf("i%d,m%d,g%d", initcap, maxcap, gap)
+
+	switch idx % 16 {
+	case 3:
+		opts = fmt.Sprintf("m%d,g%d,i%d", maxcap, gap, initcap)
+	case 7:
+		opts = fmt.Sprintf("g%d,c%d", gap, initcap)
+	case 11:
+		opts = fmt.Sprintf("i%d,g%d,m%d", maxcap+1+r.Intn(3), gap, initcap)
+	case 15:
+		// an initial capacity above the default maximum, nothing else: a reader lagging by more than the default
+		// capacity, but by less than the configured one, must not be errored
+		opts = fmt.Sprintf("i%d", 108+r.Intn(8))
+	}
+
+	initcap, maxcap, gap = watchApplyOpts(opts)
+
+	if idx%16 == 15 {
+		// stalled readers of every kind, then more events than the default capacity but fewer than the configured one
+		c := Case{Header: fmt.Sprintf("# engine=watch flavour=inmem nsaware=0 initcap=%d maxcap=%d gap=%d bs=0 opts=%s case=%d", initcap, maxcap, gap, opts, idx)}
+		t := 1
+		add := func(format string, a ...any) {
+			c.Ops = append(c.Ops, fmt.Sprintf("%s t=%d ", strings.SplitN(format, " ", 2)[0], t)+fmt.Sprintf(strings.SplitN(format, " ", 2)[1], a...))
+			t++
+		}
+
+		add("create ns=n1 typ=T1 id=a ver=undefined owner= phase=running fins= labels= c=0 u=0 spec=s0 as=")
+		add("create ns=n1 typ=T1 id=b ver=undefined owner= phase=running fins= labels= c=0 u=0 spec=s0 as=")
+		add("wstart w=1 ns=n1 typ=T1 kind=kind buf=0")
+		add("wstart w=2 ns=n1 typ=T1 kind=single id=a buf=0")
+		add("wstart w=3 ns=n1 typ=T1 kind=agg buf=0")
+		add("recv w=2") // the initial event of the single watch
+
+		k := 101 + r.Intn(initcap-gap-101)
+		va, vb := 1, 1
+
+		for i := 0; i < k; i++ {
+			if i%2 == 0 {
+				add("update ns=n1 typ=T1 id=a ver=%d owner= phase=running fins= labels= c=0 u=0 spec=s%d as= exp=any", va, i%3)
+				va++
+			} else {
+				add("update ns=n1 typ=T1 id=b ver=%d owner= phase=running fins= labels= c=0 u=0 spec=s%d as= exp=any", vb, i%3)
+				vb++
+			}
+		}
+
+		for i := 0; i < 3; i++ {
+			add("recv w=1")
+			add("recv w=2")
+			add("recv w=3")
+		}
+
+		add("update ns=n1 typ=T1 id=a ver=%d owner= phase=running fins= labels= c=0 u=0 spec=s9 as= exp=any", va)
+		add("recv w=1")
+		add("recv w=3")
+		add("list ns=n1 typ=T1")
+
+		return c
+	}
+
 	// every other case runs over a backing store which rejects the writes marked bsfail=1: they must fail, change
 	// nothing and publish nothing
 	bs := idx % 2
 
-	c := Case{Header: fmt.Sprintf("# engine=watch flavour=inmem nsaware=0 initcap=%d maxcap=%d gap=%d bs=%d case=%d", initcap, maxcap, gap, bs, idx)}
+	c := Case{Header: fmt.Sprintf("# engine=watch flavour=inmem nsaware=0 initcap=%d maxcap=%d gap=%d bs=%d opts=%s case=%d", initcap, maxcap, gap, bs, opts, idx)}
 	sh := map[string]*wshadow{}
 	types := []string{"T1", "T1", "T1", "T2"}
 	ids := []string{"a", "b", "c"}
@@ -443,6 +563,10 @@ func (e *watchEng) Exec(t *testing.T, c Case) []string {
 			inmem.WithHistoryInitialCapacity(h.Int("initcap")),
 			inmem.WithHistoryMaxCapacity(h.Int("maxcap")),
 			inmem.WithHistoryGap(h.Int("gap")),
+		}
+
+		if h["opts"] != "" {
+			stOpts = watchStateOptions(h["opts"])
 		}
 
 		wbs := &watchBackingStore{}
